@@ -291,6 +291,7 @@ func worldAt(dir string, spec WorldSpec, seed uint64, fresh bool) *World {
 	}
 	uuid.SetRand(simrt.IDRand())
 	sequence.VerifReset(spec.SeqBase)
+	simbadger.UseDefaults = spec.BadgerDefaults
 	simrt.ResetMutations()
 	return w
 }
